@@ -262,6 +262,28 @@ class CFG:
     def holds_at_exit(self, goal, depth: int = 8) -> bool:
         return self._holds(self.exit.id, goal, depth, frozenset())
 
+    def holds_after_iteration(self, loop: ast.AST, goal, depth: int = 8) -> bool:
+        """goal holds at the end of every iteration of `loop` that continues to the next one (on every back edge)."""
+        h = self.node_of(loop)
+        inside = {id(x) for x in ast.walk(loop)}
+        IN = self.facts()
+        any_edge = False
+        for p, lab in h.pred:
+            pn = self.nodes[p]
+            if pn.ast is None or id(pn.ast) not in inside or pn is h:
+                continue
+            if not self.reachable(p):
+                continue
+            any_edge = True
+            out = _kill(IN[p], _writes(pn))
+            if isinstance(lab, tuple) and lab[0] == "cond":
+                out = out | frozenset(norm.atoms_true(lab[1]))
+            if norm.entails(out, goal):
+                continue
+            if _killed(goal, _writes(pn)) or not self._holds(p, goal, depth, frozenset({h.id})):
+                return False
+        return any_edge
+
     def _holds(self, i: int, goal, depth: int, seen: FrozenSet[int]) -> bool:
         IN = self.facts()
         if not self.reachable(i):
